@@ -33,10 +33,11 @@ def innermost_cohdl_frame(exc):
     return site
 
 
-def load_module(src, name=None):
+def load_module(src, name=None, fname=None):
+    """fname: load under this fixed file name (a design file that was edited and loaded again) instead of a unique one"""
     _counter[0] += 1
     name = name or f"vfgen_{_counter[0]}"
-    fname = f"<vfgen:{name}:{_counter[0]}>"
+    fname = fname or f"<vfgen:{name}:{_counter[0]}>"
     lines = src.splitlines(keepends=True)
     linecache.cache[fname] = (len(src), None, lines, fname)
     mod = types.ModuleType(name)
@@ -74,12 +75,12 @@ def compile_entity(entity, sidecar=False, reserved=None):
         raise Rejected(e) from None
 
 
-def compile_source(src, entity_name="E", sidecar=False, reserved=None):
+def compile_source(src, entity_name="E", sidecar=False, reserved=None, fname=None):
     """define the module (definition-time errors are rejections too) and compile entity_name"""
     buf = io.StringIO()
     try:
         with contextlib.redirect_stdout(buf), contextlib.redirect_stderr(buf):
-            mod = load_module(src)
+            mod = load_module(src, fname=fname)
     except (KeyboardInterrupt, SystemExit, MemoryError):
         raise
     except BaseException as e:
